@@ -54,6 +54,9 @@ def program(draw, case):
             hops.append(["pick", draw(st.integers(0, 7))])
         else:
             hops.append([k])
+    if draw(st.integers(0, 5)) == 0:
+        # row groups in another order than they lie in the file(s)
+        hops.insert(draw(st.integers(0, len(hops))), ["slice", None, None, draw(st.sampled_from([-1, -1, -2]))])
     if case["opts"].get("file_scheme") == "simple" and draw(st.integers(0, 5)) == 0:
         # a handle on an open file object cannot be pickled or deep-copied (the file object cannot)
         hops = [["filelike"]] + [h for h in hops if h[0] not in ("pickle", "deepcopy")]
